@@ -11,7 +11,7 @@ Conventions
   These closed forms are the modelling assumption about numpy (validated by the correspondence check).
 * everything else is a transcription of the code: order of the three `np.pad` calls of `_process_padding`
   (wrap first, then edge 1, then edge 0, each acting on the array produced by the previous one), the
-  override boxes with the code's own (raw) `domain_sizes` / `padded_sizes`, overrides applied in list
+  override boxes with the code's own `domain_sizes` / `padded_sizes`, overrides applied in list
   order, VALID convolution, FULL correlation, scatter-add through the index arrays.
 -/
 import PymotoVerif.Core.Domain
@@ -127,17 +127,18 @@ def mx (c : Cfg α) : Nat := c.nx + 2 * c.px
 def my (c : Cfg α) : Nat := c.ny + 2 * c.py
 def mz (c : Cfg α) : Nat := c.nz + 2 * c.pz
 
-/-- `domain_sizes[dir]` as used inside `_process_padding` (RAW: `nelz = 0` in 2-D) -/
+/-- `domain_sizes[dir]` as used inside `_process_padding`:
+    `[nelx, nely, max(1, nelz)]` (one layer of elements in 2-D; repaired in /repo 6759d43) -/
 def domainSize (c : Cfg α) (dir : Nat) : Nat :=
   match dir with
   | 0 => c.dom.nelx
   | 1 => c.dom.nely
-  | _ => c.dom.nelz
+  | _ => max 1 c.dom.nelz
 
-/-- `padded_sizes` of `_process_padding` (RAW domain sizes) -/
-def paddedSizeX (c : Cfg α) : Nat := c.dom.nelx + 2 * c.px
-def paddedSizeY (c : Cfg α) : Nat := c.dom.nely + 2 * c.py
-def paddedSizeZ (c : Cfg α) : Nat := c.dom.nelz + 2 * c.pz
+/-- `padded_sizes = [n + 2*p for n, p in zip(domain_sizes, pad_sizes)]` of `_process_padding` -/
+def paddedSizeX (c : Cfg α) : Nat := c.domainSize 0 + 2 * c.px
+def paddedSizeY (c : Cfg α) : Nat := c.domainSize 1 + 2 * c.py
+def paddedSizeZ (c : Cfg α) : Nat := c.domainSize 2 + 2 * c.pz
 
 /-- the `assert shape % 2 == 1` of `_prepare` -/
 def oddKernel (c : Cfg α) : Prop := c.kx % 2 = 1 ∧ c.ky % 2 = 1 ∧ c.kz % 2 = 1
